@@ -1,6 +1,7 @@
 # C04 -- every input set is processed exactly once; every item reaches every consumer.
 import random
 from tools import vlib, t3
+from tools import ks
 
 MODULE = "PropC04"
 THEOREMS = ["C04_code_conforms", "C04_tasks_are_zip", "C04_emitted_exactly_once", "C04_complete", "C04_deterministic", "C04_files_deterministic", "C04_zip_equation", "C04_reference_evaluator_zips", "C04_port_merge", "C04_port_closes_with_last", "C04_port_complete", "C04_port_progress", "C04_nonvacuous"]
@@ -139,10 +140,12 @@ def run(rep, tier, seed):
     n = 150 if tier == "quick" else 3000
     results = t3.run_many(case, [(seed, i) for i in range(n)])
     results += t3.run_many(empty_param_case, [(seed, i) for i in range(n // 12)])
+    results += t3.run_many(ks.ks_case, [(seed, i, ("determinism",)) for i in range(n // 10)])
     t3.report_t3(rep, MODULE, proved, results, "T3 workflows vs WfModel")
     rep.cov["evaluations"] = len(results)
     rep.cov["distinct_nontrivial"] = len({r["spec"] for r in results if r["ntasks"] >= 2})
     rep.cov["rule"] = "random acyclic workflows (1-2 file sources, optional parameter source / FromStr, 1-5 processes with 1-2 in-ports, 1-2 outputs, SetOut patterns or default names) and special shapes (port-less process, FromStr and chains longer than the buffer, diamonds with fan-out, single-port fan-in, independent multi-slot processes, a sub-stream joined by one task, parameter streams containing the empty string on a port used in the output name only), SCIPIPE_BUFSIZE in {1,2,3,128}, maxConcurrentTasks 1-4, CoresPerTask 1..max in 40% of the runs, GOMAXPROCS in {default,1,2}, seeded delays at the hook points in half of the runs; each run on the real library, compared with the Coq reference evaluator: exit status, exact file set and bytes, multiset of executed task keys; non-trivial = at least two executed tasks"
+    rep.cov["rule"] += "; plus kitchen-sink workflows (tools/ks.py: random workflows decorated with tagging components, sub-streams, Concatenator / FileSplitter, streamed pairs, component parameter feeders, Go-function and multi-core processes, RunTo) judged by the model-free determinism (two schedules) oracle"
     rep.cov["samples"] = [results[0]["spec"], results[1]["spec"]]
     rep.notes["input_distribution"] = {"runs": len(results), "tasks_executed_total": sum(r["ntasks"] for r in results),
                                        "with_delays": sum(1 for r in results if r["yield"]), "bufsize_hist": {str(b): sum(1 for r in results if r["bufsize"] == b) for b in (1, 2, 3, 128)},
